@@ -417,6 +417,10 @@ func (h *harness) corpusFile(p string) {
 	// canonical text, so that the case hashes the same however the file was formatted
 	c.Decls = ds.JSON()
 	h.sum.Hist("source:corpus")
+	if strings.Contains(c.Decls, "javascript_with_context") {
+		h.jsReplay(c, ds)
+		return
+	}
 	h.runCase(c, ds, "", true, false)
 }
 
@@ -499,6 +503,10 @@ func main() {
 		sum.Hist(fmt.Sprintf("records:%d", nrec))
 		c := Case{Format: fname, Decls: ds.JSON(), Input: input}
 		h.runCase(c, ds, defect, g.twins > 0 || twoRefs || g.bigArrays > 0, true)
+	}
+	// ---- second stream: many same-shaped records through javascript_with_context ----
+	for i := 0; i < o.Count(40, 1500); i++ {
+		h.jsRecords(r, i)
 	}
 	cw.Flush()
 	sum.CaseFiles = cw.Files
